@@ -44,17 +44,33 @@ def main():
         print("worktree failed", out)
         return 2
     try:
-        demo_dir = meta.get("demo_dir", ".").replace(f"/tmp/wt/{pid}", wt)
-        if not os.path.isabs(demo_dir):
-            demo_dir = os.path.join(wt, demo_dir)
+        # demo_dir is free text in the sub-agents' metas: take the package it names
+        dd = meta.get("demo_dir", ".").strip().lower()
+        if dd.startswith("cmd/pql") or dd.startswith("./cmd/pql") or "cmd/pql" in dd.split(" ")[0]:
+            demo_dir = os.path.join(wt, "cmd/pql")
+        elif dd.startswith("parser") or dd.startswith("./parser") or dd.startswith(f"/tmp/wt/{pid.lower()}/parser"):
+            demo_dir = os.path.join(wt, "parser")
+        else:
+            demo_dir = wt
+        # the commands may refer to SEED/: provide a copy (untracked)
+        shutil.copytree(seed, os.path.join(wt, "SEED"), ignore=shutil.ignore_patterns("PROMPT.txt", "PROPERTY.txt"))
         demo_cmd = meta.get("demo_cmd", "").replace(f"/tmp/wt/{pid}", wt)
         demos = [f for f in os.listdir(seed) if f.startswith(f"demo{k}")]
         os.makedirs(demo_dir, exist_ok=True)
-        copied = []
-        for f in demos:
-            shutil.copy(os.path.join(seed, f), os.path.join(demo_dir, f))
-            copied.append(os.path.join(demo_dir, f))
+
+        def place():
+            for f in demos:
+                shutil.copy(os.path.join(seed, f), os.path.join(demo_dir, f))
+
+        def unplace():
+            for f in demos:
+                q = os.path.join(demo_dir, f)
+                if os.path.exists(q):
+                    os.remove(q)
+
+        place()
         rc_clean, out_clean = sh(demo_cmd, wt, timeout=600)
+        unplace()
         res["demo_clean_rc"] = rc_clean
         rc, out = sh(f"git apply {patch}", wt)
         res["patch_applies"] = rc == 0
@@ -62,23 +78,25 @@ def main():
             res["error"] = "patch does not apply: " + out[-500:]
         else:
             rc_b, out_b = sh("go build ./... ", wt)
-            # the suite must pass without the demo file in the way
-            for f in copied:
-                os.rename(f, f + ".hold")
-            rc_s, out_s = sh("go test -vet=off -count=1 ./...", wt, timeout=900)
-            for f in copied:
-                os.rename(f + ".hold", f)
+            rc_s, out_s = sh("go test -vet=off -count=1 . ./parser/... ./cmd/...", wt, timeout=900)
             res["builds"] = rc_b == 0
             res["suite_passes"] = rc_s == 0
+            place()
             rc_mut, out_mut = sh(demo_cmd, wt, timeout=600)
+            unplace()
             res["demo_mutant_rc"] = rc_mut
             res["demo_mutant_tail"] = out_mut[-600:]
-            res["confirmed"] = rc_clean == 0 and rc_b == 0 and rc_s == 0 and rc_mut != 0
+            # some demo commands end in a clean-up step that hides the test's exit
+            # status: also look at go test's own verdict lines
+            def failed(rc, out):
+                return rc != 0 or "--- FAIL" in out or "\nFAIL" in out or "panic:" in out
+
+            res["confirmed"] = not failed(rc_clean, out_clean) and rc_b == 0 and rc_s == 0 and failed(rc_mut, out_mut)
             if not res["confirmed"]:
                 res["suite_tail"] = out_s[-400:]
                 res["demo_clean_tail"] = out_clean[-400:]
-            for f in copied:
-                os.remove(f)
+            shutil.rmtree(os.path.join(wt, "SEED"), ignore_errors=True)
+            sh("git status --short", wt)
             # run the checks against the patched worktree
             for c in checks:
                 t0 = time.time()
